@@ -224,6 +224,7 @@ int main(int argc, char** argv)
   int nthreads = argc > 2 ? atoi(argv[2]) : 4;
   int rep = argc > 3 ? atoi(argv[3]) : 0;
   int steps = mon::tier(6000, 40000);
+  if (const char* e = getenv("VERIF_C18_STEPS")) steps = atoi(e); // helgrind runs
   uint64_t seed = mon::seed() * 47 + 18 + rep * 7919 + nthreads;
   if (which == 0) run<VS>(nthreads, steps, seed);
   else if (which == 1) run<rlbox_noop_sandbox>(nthreads, steps, seed);
